@@ -177,8 +177,9 @@ Theorem C10_tensorclass_must_hand_over_its_futures :
 Proof. repeat split; vm_compute; reflexivity. Qed.
 Print Assumptions C10_tensorclass_must_hand_over_its_futures.
 
-(* D110 — return_early=True: TensorDictFuture.result() waits for its futures and never looks at their outcome.
-   [fixed_D110] says which side /repo is on; both are proved. *)
+(* D110 — return_early=True.  Before the repair (fixes/C10/D110.diff) TensorDictFuture.result() waited for its futures
+   and never looked at their outcome: [pool_call_f_gen _ false].  /repo carries the repair ([fixed_D110] = true):
+   C10_return_early is the statement claimed of /repo; _refuted / _partial describe the unrepaired variant and stay true. *)
 Definition C10_return_early_full_statement : Prop := forall fl o inplace t ts',
   res_err (pool_call_f_gen repo_hands_over false fl true o inplace t ts') = res_err (run_sequential_f fl o inplace t).
 Theorem C10_return_early_refuted : ~ C10_return_early_full_statement.
@@ -196,6 +197,11 @@ Theorem C10_return_early_repaired : forall fl o inplace t ts',
   res_err (pool_call_f_gen repo_hands_over true fl true o inplace t ts') = res_err (run_sequential_f fl o inplace t).
 Proof. exact return_early_repaired_lemma. Qed.
 Print Assumptions C10_return_early_repaired.
+(* the call as /repo makes it (whatever side [fixed_D110] is on, this is stated of [pool_call_f]): true with the repair *)
+Theorem C10_return_early : forall fl o inplace t ts',
+  res_err (pool_call_f fl true o inplace t ts') = res_err (run_sequential_f fl o inplace t).
+Proof. exact return_early_repaired_lemma. Qed.
+Print Assumptions C10_return_early.
 
 (* stated, not proved: the link between the two halves — the files the submitted tasks write, in any order, are the files
    of [encode].  Every generated case evaluates its instance on the extracted model (command "link" of the dispatch). *)
